@@ -1,11 +1,34 @@
 (* C12 - Shallow search returns the exact minimax value (model-level part).
    The equality "reported score = negamax value, selected move attains it" at depths 1-3 is decided
    on the real search against the extracted oracle Spec.negamax_ab; the search model itself is tied
-   to the engine node for node.  Proved here: the ordering the oracle uses is a sorted permutation
-   (so it examines exactly the generated moves), and the leaf rules of the specification. *)
+   to the engine node for node.  Proved here: the oracle is right - fail-soft alpha-beta over any
+   window honours the window contract against the plain negamax value, and an answer strictly
+   inside the window IS that value, whatever fuel either ran with; the oracle answers whenever the
+   plain value exists; the ordering it uses is a sorted permutation; the leaf rules of the
+   specification.  Not proved: that the engine's PVS/null-move/killer search equals negamax. *)
 From Coq Require Import Permutation.
-From Walleye Require Import Model.Search Spec.Minimax Proofs.SortProofs Proofs.DrawTableProofs Proofs.SearchBasics.
+From Walleye Require Import Model.Search Spec.Minimax Proofs.SortProofs Proofs.DrawTableProofs Proofs.SearchBasics
+     Proofs.AlphaBeta.
 Open Scope Z_scope.
+
+(* the executable oracle against the readable definition: for every position, depth, ply, record and window *)
+Theorem C12_oracle_window_contract : forall zt f b d ply a be t r w,
+  a < be -> negamax_ab zt f b d ply a be t = Some r -> negamax zt f b d ply t = Some w ->
+  (r <= a -> w <= r) /\ (a < r < be -> w = r) /\ (be <= r -> r <= w).
+Proof. exact negamax_ab_ok. Qed.
+
+Theorem C12_oracle_is_minimax : forall zt f f' b d ply a be t r w,
+  negamax_ab zt f b d ply a be t = Some r -> a < r < be ->
+  negamax zt f' b d ply t = Some w -> w = r.
+Proof. exact negamax_ab_exact. Qed.
+
+Theorem C12_oracle_answers : forall zt f b d ply t w,
+  negamax zt f b d ply t = Some w -> forall a be, exists r, negamax_ab zt f b d ply a be t = Some r.
+Proof. exact negamax_ab_some. Qed.
+
+Theorem C12_more_fuel_same_answer : forall zt f f' b d ply a be t v, (f <= f')%nat ->
+  negamax_ab zt f b d ply a be t = Some v -> negamax_ab zt f' b d ply a be t = Some v.
+Proof. exact negamax_ab_fuel_le. Qed.
 
 Theorem C12_oracle_ordering_is_a_sorted_permutation : forall l,
   Permutation l (stable_sort_desc l) /\ sorted_desc (stable_sort_desc l) = true.
@@ -28,6 +51,10 @@ Proof.
   - destruct H as [H|H]; [|discriminate]. destruct (Z.eqb_spec d 0); [contradiction|]. reflexivity.
 Qed.
 
+Print Assumptions C12_oracle_window_contract.
+Print Assumptions C12_oracle_is_minimax.
+Print Assumptions C12_oracle_answers.
+Print Assumptions C12_more_fuel_same_answer.
 Print Assumptions C12_oracle_ordering_is_a_sorted_permutation.
 Print Assumptions C12_spec_repetition_is_draw.
 Print Assumptions C12_spec_no_move_is_mate_or_stalemate.
